@@ -68,6 +68,9 @@ def history(ctx, steps):
     for _ in range(steps):
         k = rng.random()
         cur = sorted(int(x[1:]) for x in M.b.vars)
+        # steps whose precondition fails become declarations (not removals)
+        if (0.25 <= k < 0.5 and not cur) or (0.6 <= k < 0.7 and len(cur) < 2) or (0.7 <= k < 0.8 and not held):
+            k = rng.random() * 0.25
         if k < 0.25:
             v = rng.choice(NAMES)
             if rng.random() < 0.7:
@@ -80,7 +83,7 @@ def history(ctx, steps):
                     ctx.violation('C14:not-bottom', f'new variable got level {r}, expected {len(before)}', M.case())
             else:
                 # mostly legal or conflicting levels; a gap (known finding, ends the history) rarely
-                l = rng.randrange(0, len(cur) + 1) if rng.random() < 0.9 else len(cur) + 1
+                l = rng.randrange(0, len(cur) + 1) if rng.random() < 0.97 else len(cur) + 1
                 before = dict(M.b.vars)
                 r = s.op(0, 'add_var', v, l)
                 if vname(v) in before:
